@@ -40,7 +40,7 @@ def _qt(g, name, shape, dtype, r, qmode=None):
     return g.net.add_t(name, shape, dtype, [], [])
 
 
-N_KINDS = 19
+N_KINDS = 21
 
 
 def fam_hostile(seed, kind=None, pick=None):
@@ -446,11 +446,78 @@ def fam_hostile(seed, kind=None, pick=None):
                 g.net.add_o(BO.ADD, [x, x], ["t%d" % i], "AddOptions", dict(fused_activation_function=0), 2)
                 x = "t%d" % i
         outs = [x]
+    elif kind == 18:  # pooling with a wide horizontal stride and a window of that size (average pools of this kind are lowered to convolutions)
+        sub = "wide-stride-pool"
+        dt = str(r.choice(["int8", "int8", "uint8", "int16"]))
+        g.dtype = dt
+        c = int(r.choice([1, 4, 8, 16]))
+        sw, sh = int(r.choice([4, 4, 5, 6, 8])), int(r.choice([1, 2, 3]))
+        hh, ww = sh * int(r.choice([1, 2, 4])), sw * int(r.choice([1, 2, 3]))
+        x = g.input([1, hh, ww, c])
+        pk = str(r.choice(["avgpool", "avgpool", "maxpool"]))
+        y = g.pool(x, pk, min(hh, int(r.choice([sh, sh, 1, 2]))), sh, PAD_VALID if r.integers(0, 3) else PAD_SAME, kw=int(r.choice([sw, sw, 2])), stride_w=sw)
+        if r.integers(0, 3) == 0:
+            y = g.conv(y, 8, 1, 1, PAD_SAME, 0)
+        outs = [y]
+    elif kind == 19:  # operators with several outputs of which some are never used (neither consumed nor graph outputs)
+        sub = "unused-outputs"
+        dt = str(r.choice(["int8", "float32", "float32", "int16"]))
+        h, w, c = int(r.choice([1, 4])), int(r.choice([2, 4])), int(r.choice([4, 8, 12]))
+        q = ([0.05], [0]) if dt != "float32" else (None, None)
+        g.net.add_t("in", [1, h, w, c], dt, *q)
+        g.net.inputs.append("in")
+        t = int(r.integers(0, 4))
+        outs = []
+        if t in (0, 1):  # SPLIT / SPLIT_V along the channels, some parts dropped
+            n = int(r.choice([2, 4]))
+            names = ["p%d" % i for i in range(n)]
+            for nm_ in names:
+                g.net.add_t(nm_, [1, h, w, c // n], dt, *q)
+            g.const("ax", (), "int32", 3)
+            if t == 0:
+                g.net.add_o(BO.SPLIT, ["ax", "in"], names, "SplitOptions", dict(num_splits=n), 2)
+            else:
+                g.const("sizes", (n,), "int32", [c // n] * n)
+                g.net.add_o(BO.SPLIT_V, ["in", "sizes", "ax"], names, "SplitVOptions", dict(num_splits=n), 2)
+            used = [nm_ for nm_ in names if r.integers(0, 2)] or [names[-1]]
+            if len(used) == n:
+                used = used[1:]
+            for nm_ in used:
+                if r.integers(0, 2):
+                    g.net.add_t(nm_ + "_r", [1, h, w, c // n], dt, *q)
+                    g.net.add_o(BO.RELU, [nm_], [nm_ + "_r"], None, None, 1)
+                    outs.append(nm_ + "_r")
+                else:
+                    outs.append(nm_)
+        elif t == 2:  # UNPACK along the width, one slice used
+            names = ["u%d" % i for i in range(w)]
+            for nm_ in names:
+                g.net.add_t(nm_, [1, h, c], dt, *q)
+            g.net.add_o(BO.UNPACK, ["in"], names, "UnpackOptions", dict(num=w, axis=2), 1)
+            outs = [names[int(r.integers(0, w))]]
+        else:  # TOPK_V2: values or indices dropped; in front of / behind an accelerated operator
+            k = int(r.choice([1, 2]))
+            g.const("k", (), "int32", k)
+            g.net.add_t("vals", [1, h, w, k], dt, *q)
+            g.net.add_t("idx", [1, h, w, k], "int32")
+            g.net.add_o(BO.TOPK_V2, ["in", "k"], ["vals", "idx"], "TopKV2Options", {}, 2)
+            outs = ["idx"] if r.integers(0, 2) else ["vals"]
+            if dt == "int8" and r.integers(0, 2):
+                g.net.add_t("sum", [1, h, w, c], dt, [0.1], [0])
+                g.net.add_o(BO.ADD, ["in", "in"], ["sum"], "AddOptions", dict(fused_activation_function=0), 2)
+                outs.append("sum")
     else:  # custom operator + unsupported + supported sandwich
         sub = "custom-sandwich"
         x = g.input([1, 4, 4, 8])
         x = g.conv(x, 8, 1)
-        x = g.cpu_op(x, "custom")
+        if r.integers(0, 2):
+            x = g.cpu_op(x, "custom")
+        else:
+            # a custom operator without any custom options vector (the field is optional)
+            X = g.T(x)
+            o = g.act(g.name("custom_o"), X.shape, X.scale[0], X.zp[0])
+            g.net.add_o(BO.CUSTOM, [x], [o.name], None, None, 1, custom_code="VvBare", custom_options=None if r.integers(0, 2) else b"")
+            x = o.name
         x = g.conv(x, 8, 3)
         outs = [x]
     net = g.finish(outs, "hostile:" + sub, "hostile", tol=None)
